@@ -222,9 +222,15 @@ let main_loop (judge : int -> cursor -> cursor -> bool * string) : unit =
            with
            | Disagreement (c, s, d) -> Disagree (c, s, d)
            | OracleFail (c, s, d) -> Oracle (c, s, d)
-           | Failure m -> Disagree ("driver_failure", "driver", m)
-           | Invalid_argument m -> Disagree ("driver_failure", "driver", m)
-           | Not_found -> Disagree ("driver_failure", "driver", "Not_found")) in
+           | (Failure _ | Invalid_argument _ | Not_found) as ex ->
+             (* a driver that cannot read the answer because the implementation printed a non-finite number
+                where a number was expected: that is a failing input, not a broken correspondence *)
+             let m = (match ex with Failure m | Invalid_argument m -> m | _ -> "Not_found") in
+             let toks = String.split_on_char ' ' il in
+             let nonfinite t = (match String.lowercase_ascii t with "nan" | "-nan" | "inf" | "-inf" | "+inf" -> true | _ -> false) in
+             (match List.find_opt nonfinite toks with
+              | Some t -> Oracle ("finite_outputs", "harness_output", "the implementation returned " ^ t ^ " where a finite number is required (driver: " ^ m ^ ")")
+              | None -> Disagree ("driver_failure", "driver", m))) in
       match v with
       | Ok_ (nt, tag) -> Printf.printf "V %d OK %d %s\n" id (if nt then 1 else 0) tag
       | Disagree (c, s, d) -> Printf.printf "V %d DISAGREE 1 %s %s %s\n" id c s d
